@@ -599,17 +599,43 @@ Proof.
   destruct (KInv_reap_closed k1 H2) as [H4 C4]. rewrite C1 in H3. split; [assumption|]. split; [congruence|assumption].
 Qed.
 
-Lemma KInv_k_udp_send_to k fd pl dst :
-  KInv k -> KInv (fst (k_udp_send_to k fd pl dst)) /\ cfg (fst (k_udp_send_to k fd pl dst)) = cfg k.
+Lemma KInv_udp_send_core k fd s pl dst :
+  KInv k -> KInv (fst (udp_send_core k fd s pl dst)) /\ cfg (fst (udp_send_core k fd s pl dst)) = cfg k.
 Proof.
-  intros H. unfold k_udp_send_to. destruct (lookup k fd) as [s|]; [|split; [assumption|reflexivity]].
-  destruct (negb _); [split; [assumption|reflexivity]|]. destruct (_ <? _); [split; [assumption|reflexivity]|].
+  intros H. unfold udp_send_core. destruct (_ <? _); [split; [assumption|reflexivity]|].
   assert (KInv (fst (match s_bound s with Some b => (k, Ready b) | None => auto_bind k fd false (fst dst) end)) /\
           cfg (fst (match s_bound s with Some b => (k, Ready b) | None => auto_bind k fd false (fst dst) end)) = cfg k) as [H1 C1].
   { destruct (s_bound s); [split; [assumption|reflexivity]|apply KInv_auto_bind, H]. }
   destruct (match s_bound s with Some b => _ | None => _ end) as [k1 r]; cbn in *.
   destruct r as [|b|e]; try (split; assumption). cbn. split; [|assumption].
   apply KInv_emit; [assumption|exact I].
+Qed.
+
+Lemma KInv_k_udp_send_to k fd pl dst :
+  KInv k -> KInv (fst (k_udp_send_to k fd pl dst)) /\ cfg (fst (k_udp_send_to k fd pl dst)) = cfg k.
+Proof.
+  intros H. unfold k_udp_send_to. destruct (lookup k fd) as [s|]; [|split; [assumption|reflexivity]].
+  destruct (negb _); [split; [assumption|reflexivity]|]. apply KInv_udp_send_core, H.
+Qed.
+
+Lemma KInv_k_udp_send k fd pl :
+  KInv k -> KInv (fst (k_udp_send k fd pl)) /\ cfg (fst (k_udp_send k fd pl)) = cfg k.
+Proof.
+  intros H. unfold k_udp_send. destruct (lookup k fd) as [s|]; [|split; [assumption|reflexivity]].
+  destruct (s_peer s); [apply KInv_udp_send_core, H|split; [assumption|reflexivity]].
+Qed.
+
+Lemma KInv_k_udp_connect k fd peer :
+  KInv k -> KInv (fst (k_udp_connect k fd peer)) /\ cfg (fst (k_udp_connect k fd peer)) = cfg k.
+Proof.
+  intros H. unfold k_udp_connect. destruct (lookup k fd) as [s|]; [|split; [assumption|reflexivity]].
+  destruct (negb _); [split; [assumption|reflexivity]|].
+  assert (KInv (fst (match s_bound s with Some b => (k, Ready b) | None => auto_bind k fd false (fst peer) end)) /\
+          cfg (fst (match s_bound s with Some b => (k, Ready b) | None => auto_bind k fd false (fst peer) end)) = cfg k) as [H1 C1].
+  { destruct (s_bound s); [split; [assumption|reflexivity]|apply KInv_auto_bind, H]. }
+  destruct (match s_bound s with Some b => _ | None => _ end) as [k1 r]; cbn in *.
+  destruct r as [|b|e]; try (split; assumption). cbn. split; [|assumption].
+  apply KInv_upd_sock'; [assumption|]. intros s0 Hs. exact Hs.
 Qed.
 
 (* ------------------------------------------------------------------ *)
@@ -620,7 +646,8 @@ Inductive kev :=
 | KOpen (v6 stream : bool) | KBind (a : sockaddr) (stream : bool) | KListen (fd bl : N)
 | KConnect (fd : N) (peer : sockaddr) | KAccept (fd : N) | KSend (fd : N) (buf : list N)
 | KRecv (fd n : N) | KShutdown (fd : N) | KClose (fd : N) | KDeliver (p : packet) | KEgress
-| KUdpSend (fd : N) (pl : list N) (dst : sockaddr).
+| KUdpSend (fd : N) (pl : list N) (dst : sockaddr)
+| KUdpConnect (fd : N) (peer : sockaddr) | KUdpSendC (fd : N) (pl : list N).
 
 Definition kstep (k : kernel) (e : kev) : kernel :=
   match e with
@@ -636,6 +663,8 @@ Definition kstep (k : kernel) (e : kev) : kernel :=
   | KDeliver p => k_deliver k p
   | KEgress => fst (k_egress k)
   | KUdpSend fd pl d => fst (k_udp_send_to k fd pl d)
+  | KUdpConnect fd p => fst (k_udp_connect k fd p)
+  | KUdpSendC fd pl => fst (k_udp_send k fd pl)
   end.
 
 Definition krun (k : kernel) (es : list kev) : kernel := fold_left kstep es k.
@@ -660,6 +689,8 @@ Proof.
   - apply KInv_k_deliver, H.
   - destruct (KInv_k_egress k H) as (A & B & _). split; assumption.
   - apply KInv_k_udp_send_to, H.
+  - apply KInv_k_udp_connect, H.
+  - apply KInv_k_udp_send, H.
 Qed.
 
 Lemma KInv_krun es k : KInv k -> KInv (krun k es) /\ cfg (krun k es) = cfg k.
@@ -814,6 +845,16 @@ Proof.
     pose proof (kreach_kstep k (KUdpSend fd (repeat 7 (N.to_nat n)) (mkip (w6 w) a, port)) Hk) as H2. cbn in H2.
     destruct (k_udp_send_to k fd (repeat 7 (N.to_nat n)) (mkip (w6 w) a, port)) as [k2 [|u|er]]; cbn in *;
       apply WReach_set_host; assumption.
+  - (* EUdpConnect *)
+    destruct (slot_get (slots w) slot) as [[h fd peer|h fd|h fd|h fd]|]; try assumption.
+    destruct (get_host w h) as [k|] eqn:G; [|assumption]. pose proof (WReach_get _ _ _ H G) as Hk.
+    pose proof (kreach_kstep k (KUdpConnect fd (mkip (w6 w) a, port)) Hk) as H2. cbn in H2.
+    destruct (k_udp_connect k fd (mkip (w6 w) a, port)) as [k2 [|u|er]]; cbn in *; apply WReach_set_host; assumption.
+  - (* EUdpSendC *)
+    destruct (slot_get (slots w) slot) as [[h fd peer|h fd|h fd|h fd]|]; try assumption.
+    destruct (get_host w h) as [k|] eqn:G; [|assumption]. pose proof (WReach_get _ _ _ H G) as Hk.
+    pose proof (kreach_kstep k (KUdpSendC fd (repeat 7 (N.to_nat n))) Hk) as H2. cbn in H2.
+    destruct (k_udp_send k fd (repeat 7 (N.to_nat n))) as [k2 [|u|er]]; cbn in *; apply WReach_set_host; assumption.
 Qed.
 
 Lemma WReach_init c v n : WReach (init_world c v n).
